@@ -9,6 +9,7 @@ import RosedVerif.Model.CompositeLemmas
 import RosedVerif.Spec.CompositeLemmas
 import RosedVerif.Model.WrapFits
 import RosedVerif.Model.BridgeComposite
+import RosedVerif.Model.NoLossModel
 namespace RosedVerif.Props
 open RosedVerif
 
@@ -115,5 +116,49 @@ theorem C14_code_points {V : List (List Int)} (hV : VocabStable V = true)
         (clusters cxA ls[i].flatten).drop (leftW + gap).toNat =
           (colLines cxB r rightW (o.withDefaults cxB).lineSep).getD i [] :=
   insertTwoColumnsOpts_bridge_C14 hV hsp hhy hspTail toks ht o0 pos l r hl hr gap width pct o hS hne hg
+
+open RosedVerif.Spec RosedVerif.Spec.NoLoss RosedVerif.NoLossModel RosedVerif.WrapRefine
+
+/-- no text is lost: the words (units) of the left text are recovered in order from the left parts of the lines, those of the right text from the parts after column leftW + gap -/
+theorem C14_no_loss {α : Type} (tk : Spec.Toks α) (hsp : tk.ws tk.sp = true)
+    (hhy : tk.ws tk.hy = false)
+    (left right : List α)
+    (gap width : Int)
+    (pct : Pct)
+    (hg : 0 ≤ gap) :
+    let lw := (colWidths gap width pct).1
+    let rw := (colWidths gap width pct).2
+    let cols := twoColumns tk left right gap width pct
+    (cols.map (List.take (lw + gap.toNat))).flatMap (words tk) = units tk lw left ∧
+    (cols.map (List.drop (lw + gap.toNat))).flatMap (words tk) = units tk rw right :=
+  C14_no_loss_m tk hsp hhy left right gap width pct hg
+
+/-- the same for the MODEL of InsertTwoColumnsOpts at cluster level -/
+theorem C14_model_no_loss {α : Type} [DecidableEq α] (cx : Ctx α) (htriv : ∀ s, cx.ends s = List.range' 1 s.length)
+    (hsp : cx.isSpace cx.sp = true)
+    (hhy : cx.isSpace cx.hy = false)
+    (ed : Editor α)
+    (pos : Int)
+    (l r : List α)
+    (gap width : Int)
+    (pct : Pct)
+    (o : Options α)
+    (hne : ¬(l.isEmpty ∧ r.isEmpty))
+    (hg : 0 ≤ gap) :
+    ∃ (leftW rightW : Int) (ls : List (List α)), 2 ≤ leftW ∧ 2 ≤ rightW ∧
+      leftW + gap + rightW = max width (gap + 4) ∧
+      ed.insertTwoColumnsOpts cx pos l r gap width pct o =
+        ed.insert cx pos (Block.mk ls (o.withDefaults cx).lineSep (!(o.withDefaults cx).noTrailing)).join ∧
+      (ls.map (List.take (leftW + gap).toNat)).flatMap (words (toks cx)) =
+        units (toks cx) leftW.toNat (replaceAll' cx l (o.withDefaults cx).lineSep) ∧
+      (ls.map (List.drop (leftW + gap).toNat)).flatMap (words (toks cx)) =
+        units (toks cx) rightW.toNat (replaceAll' cx r (o.withDefaults cx).lineSep) ∧
+      (HyOK (toks cx) leftW.toNat (replaceAll' cx l (o.withDefaults cx).lineSep) →
+        dehyphen (toks cx) leftW.toNat (ls.map (List.take (leftW + gap).toNat)) =
+          words (toks cx) (replaceAll' cx l (o.withDefaults cx).lineSep)) ∧
+      (HyOK (toks cx) rightW.toNat (replaceAll' cx r (o.withDefaults cx).lineSep) →
+        dehyphen (toks cx) rightW.toNat (ls.map (List.drop (leftW + gap).toNat)) =
+          words (toks cx) (replaceAll' cx r (o.withDefaults cx).lineSep)) :=
+  C14_model_no_loss_m cx htriv hsp hhy ed pos l r gap width pct o hne hg
 
 end RosedVerif.Props
